@@ -122,12 +122,27 @@ def gen_tree(rng: random.Random) -> dict[str, Any]:
         else:
             size = rng.choice([0, 1, 5, 30, 200])
         entries[p] = {"f": size}
+    # a FIFO with a matching name (not a file: must never be listed - and reading it would block)
+    if rng.random() < 0.08:
+        parent = rng.choice(dirs)
+        fp = parent + "/" + rng.choice(["pipe.md", "fifo.md", "queue.mdx"])
+        if fp not in entries:
+            entries[fp] = {"fifo": 1}
     # outside area
     entries["outside"] = {"d": 1}
     entries["outside/secret.md"] = {"f": 7}
     entries["outside/deep"] = {"d": 1}
     entries["outside/deep/o.md"] = {"f": 9}
     files = [p for p, e in entries.items() if "f" in e and p.startswith("t/")]
+    # hard links: a second (and third) name for the same inode - distinct files for discovery
+    for _ in range(rng.choice([0, 0, 0, 0, 1, 2])):
+        if not files:
+            break
+        tgt = rng.choice(files)
+        parent = rng.choice(dirs)
+        hp = parent + "/" + rng.choice(["hard", "same", "dup", "a", "README"]) + rng.choice([".md", ".md", ".mdx", ".txt"])
+        if hp not in entries and "f" in entries.get(tgt, {}):
+            entries[hp] = {"hl": tgt}
     # symlinks
     for _ in range(rng.choice([0, 0, 1, 2, 3])):
         parent = rng.choice(dirs)
@@ -215,7 +230,7 @@ def gen_args(rng: random.Random, entries: dict[str, Any]) -> list[str]:
     files = [
         p[len("t/") :]
         for p, e in entries.items()
-        if ("f" in e or ("l" in e and not e["l"].startswith("nowhere"))) and p.startswith("t/")
+        if ("f" in e or "hl" in e or ("l" in e and not e["l"].startswith("nowhere"))) and p.startswith("t/")
     ]
     # directory arguments that are not themselves excluded-named / inside excluded dirs
     ok_dirs = [d for d in dirs if not any(c in DEFAULT_EXCLUDED_NAMES or c.endswith(".egg-info") for c in d.split("/"))]
@@ -435,6 +450,11 @@ class Ref:
                     cls, reason = self.judge(p, base_real)
                     put(p, cls, reason, "dir")
                 self._links_under(base_real, put, "dir")
+                for dp, dns, fns in os.walk(base_real):
+                    for fn in fns:
+                        sp = os.path.join(dp, fn)
+                        if not os.path.islink(sp) and not os.path.isfile(sp):
+                            put(sp, "NO", "not-a-regular-file", "dir")
             elif any(c in a for c in "*?["):
                 self._glob(a, put)
         return out
@@ -461,8 +481,12 @@ class Ref:
                     idir, rules = ci
                     relr = os.path.relpath(full, idir)
                     if not relr.startswith("..") and any_component_matches(rules, relr, False) is not None:
-                        put(full, "NO", "force-exclude-flowmarkignore", "explicit")
-                        return
+                        if any(r.get("neg") for r in rules):
+                            # without directory pruning, "dir/ then !file" is where pathspec and git differ
+                            cls, reason = "MAY", "force-exclude with negation rules in .flowmarkignore"
+                        else:
+                            put(full, "NO", "force-exclude-flowmarkignore", "explicit")
+                            return
                 if self.s["respect_gitignore"]:
                     d = os.path.dirname(full)
                     while True:
